@@ -309,7 +309,7 @@ Section Reader.
     pose proof c08_maxLookups_le. pose proof c08_objects_le.
     (* the header chunk is the first chunk *)
     assert (Hhead : exists rest, L = header_chunk (N.of_nat (length ll)) :: rest).
-    { destruct Hshape as [-> _ | big repl R M E _ -> _ _ _]; eexists; reflexivity. }
+    { pose proof Hshape as Hs. destruct Hs as [Hs _ | big repl R M E _ Hs _ _ _]; rewrite Hs; eexists; reflexivity. }
     destruct Hhead as [restL HLeq].
     assert (Hb : exists br, bytes = (be16 (N.of_nat (length ll)) ++ table_offsets (length ll) 0 L) ++ br).
     { pose proof Hemit as He. rewrite HLeq in He at 2. cbn [emit] in He.
@@ -324,12 +324,54 @@ Section Reader.
     rewrite table_offsets_map.
     set (offs := map (fun t => pos_or0 (find_pos KTable t 0 L 0)) (iota (length ll) 0)).
     assert (Hlen : length offs = length ll) by (unfold offs; now rewrite map_length, iota_length).
-    rewrite <- Hlen at 1.
-    rewrite read_u16s_flat.
-    - cbn [obind fst]. unfold offs.
-      apply (read_lookups_ok ll 0%nat 0); [intros m l Hm; exact Hm|lia].
-    - unfold offs. apply Forall_map. apply Forall_forall. intros t _.
+    assert (Hoffs : Forall (fun x => x < 65536) offs).
+    { unfold offs. apply Forall_map. apply Forall_forall. intros t _.
       destruct (find_pos KTable t 0 L 0) as [q|] eqn:E; cbn [pos_or0]; [|lia].
-      pose proof (tables_fit ll L t q Hshape E). lia.
+      pose proof (tables_fit ll L t q Hshape E). lia. }
+    destruct (read_lookups_ok ll 0%nat 0 ltac:(intros m l Hm; exact Hm) ltac:(lia)) as (obs & Hr & Hall).
+    exists obs. split; [|exact Hall].
+    rewrite <- Hlen at 1. rewrite read_u16s_flat by exact Hoffs. cbn [obind fst]. exact Hr.
+  Qed.
+
+  (* ---- the offsets themselves ---- *)
+
+  Lemma ll_offsets k l :
+    nth_error ll k = Some l ->
+    exists T,
+      find_pos KTable (N.of_nat k) 0 L 0 = Some T /\ T <= 65535 /\
+      forall j b, nth_error (lk_subs l) j = Some b ->
+        (find_pos KExt (N.of_nat k) (N.of_nat j) L 0 = None /\
+         exists Sp, find_pos KSub (N.of_nat k) (N.of_nat j) L 0 = Some Sp /\
+                    T <= Sp /\ Sp - T <= 65535 /\ starts data (P + Sp) b)
+        \/
+        (exists Ep Sp,
+           find_pos KExt (N.of_nat k) (N.of_nat j) L 0 = Some Ep /\
+           find_pos KSub (N.of_nat k) (N.of_nat j) L 0 = Some Sp /\
+           T <= Ep /\ Ep - T <= 65535 /\ Ep <= Sp /\ Sp - Ep < 4294967296 /\
+           starts data (P + Sp) b).
+  Proof.
+    intros Hk. destruct (layout_lookup_facts ll L k l Hshape Hk) as [T (HT & HTfit & Hsubs)].
+    set (i := N.of_nat k) in *.
+    assert (Hl : nth_error ll (N.to_nat i) = Some l) by (unfold i; rewrite Nnat.Nat2N.id; exact Hk).
+    exists T. split; [exact HT|]. split; [exact HTfit|].
+    destruct (at_pos _ _ _ _ HT) as (c & bc & Hc & Hb & _).
+    destruct (table_content i l c bc Hl Hc Hb) as (_ & offs & Hoffs & _).
+    rewrite HT in Hoffs. cbn [pos_or0] in Hoffs.
+    destruct (sub_offsets_inv i T _ _ _ HTfit Hoffs) as [_ Hrange].
+    intros j b Hj.
+    assert (Hin : In (N.of_nat j) (iota (length (lk_subs l)) 0)).
+    { apply iota_In. pose proof (proj1 (nth_error_Some (lk_subs l) j) ltac:(congruence)). lia. }
+    pose proof (proj1 (Forall_forall _ _) Hrange _ Hin) as [Hge Hle]. cbv beta in Hge, Hle.
+    assert (Hcontent : forall Sp, find_pos KSub i (N.of_nat j) L 0 = Some Sp -> starts data (P + Sp) b).
+    { intros Sp HS. destruct (at_pos _ _ _ _ HS) as (c' & bc' & Hc' & Hb' & Hst').
+      now rewrite (sub_content i l (N.of_nat j) b c' bc' Hl ltac:(now rewrite Nnat.Nat2N.id) Hc' Hb') in Hst'. }
+    destruct Hsubs as [[Hnoext Hsub] | [_ Hext]].
+    - left. split; [apply Hnoext|]. destruct (Hsub j b Hj) as [Sp HS]. exists Sp.
+      unfold spos in Hge, Hle. rewrite (Hnoext (N.of_nat j)), HS in Hge, Hle. cbn [pos_or0] in Hge, Hle.
+      repeat split; try assumption. apply Hcontent. exact HS.
+    - right. destruct (Hext j b Hj) as (Ep & Sp & HE & HS & HES). exists Ep, Sp.
+      unfold spos in Hge, Hle. rewrite HE in Hge, Hle.
+      pose proof (pos_lt _ _ _ _ HS).
+      repeat split; try assumption; try lia. apply Hcontent. exact HS.
   Qed.
 End Reader.
